@@ -186,7 +186,14 @@ func Start(path string, args ...string) (*Proc, error) {
 
 func (p *Proc) spawn() error {
 	p.cmd = exec.Command(p.path, p.args...)
-	p.cmd.Env = append(os.Environ(), "NO_COLOR=1")
+	// (no NO_COLOR in the environment: fatih/color would switch every colour object off for good; the worker's main sets
+	// color.NoColor = true and a request may switch colours on for its own duration)
+	p.cmd.Env = nil
+	for _, e := range os.Environ() {
+		if !strings.HasPrefix(e, "NO_COLOR=") {
+			p.cmd.Env = append(p.cmd.Env, e)
+		}
+	}
 	var err error
 	if p.stdin, err = p.cmd.StdinPipe(); err != nil {
 		return err
